@@ -77,12 +77,48 @@ var vAnnVals = []string{"", "true", "false", "TRUE", "x", "{", "[", "]", "- a\n-
 	"ctr0:\n- match:\n    key: ''\n    operator: In\n", "- - - -", "!!binary x", "&a [*a]", "fixed", "dyn", "reserved", "default", "nosuchballoon",
 	"1000000000000", "4k", "1G", "100Mi", "/dev/*", "type: glob\npaths: [ \"[\" ]", "type: prefix\npaths: []", "mounts,devices", "none", "all,none", "high", "low", "normal", "none"}
 
+// vAffinityAnn: full-notation (anti-)affinity annotations with odd scope/match keys, operators and values.
+func vAffinityAnn(rng *rand.Rand) string {
+	keys := []string{":", ":x", ":,", "::", ":a:b", ":,a,b", ":/pod/name/name", "", "pod/", "/", "labels/", "labels", "pod/labels/", "tags/", "name", "pod/name", "namespace", "qosclass", "pod/qosclass",
+		"labels/app", "tags/t", ":;name;namespace", ":.", "\x00", strings.Repeat(":", 50)}
+	ops := []string{"Equals", "NotEqual", "In", "NotIn", "Exists", "NotExist", "AlwaysTrue", "Matches", "MatchesNot", "MatchesAny", "MatchesNone", "Bogus", "", "equals"}
+	vals := []string{"[]", "[ a ]", "[ a, b ]", "[ \"*\" ]", "[ \"[\" ]", "[ \"\" ]", "a", "{}", "null"}
+	k := func() string { return strconv.Quote(keys[rng.Intn(len(keys))]) }
+	// mostly well-formed expressions (valid operator, values and weight) so that the odd part - usually the key - is reached
+	expr := func() string {
+		op, vs := []string{"Equals", "In", "Exists", "Matches", "AlwaysTrue"}[rng.Intn(5)], []string{"[ a ]", "[ a, b ]", "[ \"*\" ]"}[rng.Intn(3)]
+		if rng.Intn(4) == 0 {
+			op, vs = ops[rng.Intn(len(ops))], vals[rng.Intn(len(vals))]
+		}
+		return fmt.Sprintf("{ key: %s, operator: %s, values: %s }", k(), strconv.Quote(op), vs)
+	}
+	w := []string{"1", "-1", "5", "1000"}[rng.Intn(4)]
+	if rng.Intn(5) == 0 {
+		w = []string{"0", "99999999999999999999", "x", "1.5"}[rng.Intn(4)]
+	}
+	switch rng.Intn(4) {
+	case 0:
+		return fmt.Sprintf("ctr%d:\n- scope: %s\n  match: %s\n  weight: %s\n", rng.Intn(3), expr(), expr(), w)
+	case 1:
+		return fmt.Sprintf("ctr%d:\n- match: %s\n", rng.Intn(3), expr())
+	case 2:
+		return fmt.Sprintf("ctr%d:\n- scope: %s\n", rng.Intn(3), expr())
+	default:
+		return fmt.Sprintf("ctr%d: [ ctr%d, %s ]", rng.Intn(3), rng.Intn(3), k())
+	}
+}
+
 func vChaosPod(rng *rand.Rand, id string) *vPod {
 	qos := []string{"Guaranteed", "Burstable", "BestEffort"}[rng.Intn(3)]
 	ns := []string{"default", "prod", "kube-system", "reserved-x", ""}[rng.Intn(5)]
 	p := &vPod{id: id, name: "pod-" + id, ns: ns, qos: qos, ann: map[string]string{}}
 	for i, n := 0, rng.Intn(4); i < n; i++ {
 		k := vAnnKeys[rng.Intn(len(vAnnKeys))] + "." + vKey
+		if rng.Intn(4) == 0 {
+			// the (anti-)affinity annotations use the "<namespace>/<name>" key form and take no /pod or /container suffix
+			p.ann[vKey+"/"+[]string{"affinity", "anti-affinity"}[rng.Intn(2)]] = vAffinityAnn(rng)
+			continue
+		}
 		switch rng.Intn(4) {
 		case 0:
 			k += "/pod"
@@ -92,6 +128,9 @@ func vChaosPod(rng *rand.Rand, id string) *vPod {
 			k += "/container."
 		}
 		v := vAnnVals[rng.Intn(len(vAnnVals))]
+		if strings.Contains(k, "affinity") && rng.Intn(3) != 0 {
+			v = vAffinityAnn(rng)
+		}
 		if rng.Intn(40) == 0 {
 			v = strings.Repeat(v+"x", 20000)
 		}
